@@ -1,4 +1,5 @@
 import LivesimVerif.Model.Audio
+import LivesimVerif.Lemmas.Trans
 import LivesimVerif.Lemmas.AudioFrames
 import LivesimVerif.Props.C01
 import LivesimVerif.Props.C02
@@ -368,5 +369,11 @@ def exGridRep : Rep where
 
 example : createAudioSeg exGridRep ⟨7, 100 * 1024, 106 * 1024, 9 * 1024, 13 * 1024, 2 * 1024⟩ =
     .ok 7 (100 * 1024) [9, 10, 10, 10, 0, 1] := by decide
+
+/-- **tie by translation**: the model's `audioTimeFromRef` is the Go function `calcAudioTimeFromRef`, translated
+statement by statement from the current source (`Gen/Trans.lean`, regenerated on every run), on natural numbers -/
+theorem c03_trans_audioTimeFromRef (refTime refT frameDur audT : Nat) :
+    Gen.Trans.calcAudioTimeFromRef refTime refT frameDur audT = ((audioTimeFromRef refTime refT frameDur audT : Nat) : Int) :=
+  TransTie.audioTimeFromRef_eq refTime refT frameDur audT
 
 end Core
